@@ -282,6 +282,12 @@ impl RawRw {
     pub fn lock_exclusive(&self) {
         self.sem.acquire_blocking(MAX_READS).expect("lock closed (a holder panicked)");
     }
+    pub fn try_lock_shared(&self) -> bool {
+        self.sem.try_acquire(1).is_ok()
+    }
+    pub fn try_lock_exclusive(&self) -> bool {
+        self.sem.try_acquire(MAX_READS).is_ok()
+    }
     pub fn unlock_shared(&self) {
         self.sem.release(1);
     }
@@ -308,6 +314,20 @@ impl<T> RwLock<T> {
     pub fn write(&self) -> RwLockWriteGuard<'_, T> {
         self.raw.lock_exclusive();
         RwLockWriteGuard { lock: self }
+    }
+    pub fn try_read(&self) -> Option<RwLockReadGuard<'_, T>> {
+        if self.raw.try_lock_shared() {
+            Some(RwLockReadGuard { lock: self })
+        } else {
+            None
+        }
+    }
+    pub fn try_write(&self) -> Option<RwLockWriteGuard<'_, T>> {
+        if self.raw.try_lock_exclusive() {
+            Some(RwLockWriteGuard { lock: self })
+        } else {
+            None
+        }
     }
     /// Harness-only: look at the data without touching the lock (no scheduling point). Only
     /// sound when the caller knows no writer is active (quiescent points of a cooperative run).
@@ -364,6 +384,13 @@ impl<T> Mutex<T> {
     pub fn lock(&self) -> MutexGuard<'_, T> {
         self.sem.acquire_blocking(1).expect("mutex closed (a holder panicked)");
         MutexGuard { lock: self }
+    }
+    pub fn try_lock(&self) -> Option<MutexGuard<'_, T>> {
+        if self.sem.try_acquire(1).is_ok() {
+            Some(MutexGuard { lock: self })
+        } else {
+            None
+        }
     }
 }
 pub struct MutexGuard<'a, T> {
